@@ -294,6 +294,8 @@ class Sym:
 
     def __mul__(self, o):
         o0 = o
+        if isinstance(o, complex):
+            return CSym(self * o.real, self * o.imag)
         o = self._coerce(o)
         if o is None:
             if hasattr(o0, "tocsr") and hasattr(o0, "nnz") and not hasattr(o0, "a"):
@@ -548,6 +550,58 @@ class Sym:
         if self.d.is_const():
             return f"Sym({fmt(self.n)})"
         return f"Sym(({fmt(self.n)})/({fmt(self.d)}))"
+
+
+class CSym:
+    """complex number with symbolic real and imaginary parts (only what complex assembly needs)."""
+
+    __slots__ = ("real", "imag")
+
+    def __init__(self, re, im):
+        self.real = as_sym(re)
+        self.imag = as_sym(im)
+
+    @staticmethod
+    def _parts(o):
+        if isinstance(o, CSym):
+            return o.real, o.imag
+        if isinstance(o, complex):
+            return as_sym(o.real), as_sym(o.imag)
+        try:
+            return as_sym(o), as_sym(0)
+        except TypeError:
+            return None
+
+    def __add__(self, o):
+        p = CSym._parts(o)
+        if p is None:
+            return NotImplemented
+        return CSym(self.real + p[0], self.imag + p[1])
+
+    __radd__ = __add__
+
+    def __sub__(self, o):
+        p = CSym._parts(o)
+        if p is None:
+            return NotImplemented
+        return CSym(self.real - p[0], self.imag - p[1])
+
+    def __neg__(self):
+        return CSym(-self.real, -self.imag)
+
+    def __mul__(self, o):
+        p = CSym._parts(o)
+        if p is None:
+            return NotImplemented
+        return CSym(self.real * p[0] - self.imag * p[1], self.real * p[1] + self.imag * p[0])
+
+    __rmul__ = __mul__
+
+    def conjugate(self):
+        return CSym(self.real, -self.imag)
+
+    def __repr__(self):
+        return f"CSym({self.real!r} + i {self.imag!r})"
 
 
 def _common_den(d1, d2):
